@@ -1198,7 +1198,6 @@ func (repo *Repository) load(ctx context.Context, depth int) error {
 		}
 
 		branches = append(branches, branch)
-		repo.loadBranchHashHeights(ctx, branch)
 	}
 
 	if len(branches) == 0 {
@@ -1213,6 +1212,7 @@ func (repo *Repository) load(ctx context.Context, depth int) error {
 		if branch.parentHeight == -1 {
 			// main branch
 			repo.branches = append(repo.branches, branch)
+			repo.loadBranchHashHeights(ctx, branch)
 			continue
 		}
 
@@ -1225,6 +1225,7 @@ func (repo *Repository) load(ctx context.Context, depth int) error {
 		}
 
 		repo.branches = append(repo.branches, branch)
+		repo.loadBranchHashHeights(ctx, branch)
 	}
 
 	if err := repo.loadHistoricalHashHeights(ctx); err != nil {
@@ -1240,7 +1241,7 @@ func (repo *Repository) load(ctx context.Context, depth int) error {
 }
 
 func (repo *Repository) loadBranchHashHeights(ctx context.Context, branch *Branch) {
-	height := branch.parentHeight + 1
+	height := branch.PrunedLowestHeight()
 	for _, headerData := range branch.headers {
 		repo.heights[headerData.Hash] = height
 		height++
